@@ -314,7 +314,7 @@ def read_arm(pat, body, S, ctor_ids, ctor_fields):
     # recognised by their distinctive calls and described by a code
     def push_re(b):
         return [(m.group(1), m.group(2)) for m in re.finditer(r"push\(\s*Op::(\w+)\s*(?:\{((?:[^{}]|\{[^{}]*\})*)\})?\s*\)", b, flags=re.S)]
-    if re.search(r"as_array\(\)\?\.iter\(\)\.map\(\|p\|\s*p\.as_number\(\)\)", body):
+    if re.search(r"as_array\(\)\?\.iter\(\)\.map\(\s*(?:\|(\w+)\|\s*\1\.as_number\(\)|Primitive::as_number)\s*\)", body):
         m = re.search(r"let\s+(\w+)\s*=\s*" + ARGNEXT + r"\s*;\s*let\s+(\w+)\s*=\s*\1\.as_array", body)
         ph = re.search(r"let\s+(\w+)\s*=\s*" + ARGNEXT + r"\.as_number\(\)\?", body)
         ps = push_re(body)
